@@ -473,4 +473,11 @@ def run(ctx):
     check_uci(ctx, f, L)
     check_san_reader(ctx, f, L)
     check_san_writer(ctx, f, L)
-    ctx.assumptions += ["legality of the moves the reader can return and the writer scans is C01's; the successor position is C02's; checkers are C03's"]
+    # the reader returns, and the writer disambiguates among, the moves generate_moves_for yields; the check / mate suffix is
+    # read off the successor position: legal move generation (C01), which re-runs the successor (C02) and checker (C03)
+    # rules, is a prerequisite and is re-run here
+    from . import c01
+    expl_ = ctx.explanation
+    c01.run(ctx)
+    ctx.explanation = expl_
+    ctx.assumptions += ["legality of the moves the reader can return and the writer scans is C01's; the successor position is C02's; checkers are C03's (all re-run inside this check)"]
